@@ -32,6 +32,7 @@ notify/set is decided (timed out), a notify/set before the clock reaches the dea
 Sensitivity (quick tier, seed 1, scratch copy of /repo/tornado/locks.py; all caught):
   M1  Condition.notify counts done (timed-out/cancelled) waiters against n  -> C34.cond_notify_missed_live_waiter
   M2  Event.set does not guard fut.done()                                   -> crash.InvalidStateError@locks.py:set
+      (seeds 1,2,3; needs wait -> cancel -> set with no loop turn in between: main part and event grid)
   M3  Condition.wait on_timeout resolves True                               -> C34.cond_spurious_wakeup
   M4  Condition.notify pops the newest waiter (LIFO)                        -> C34.cond_notify_missed_live_waiter
   M5  Event.wait does not remove finished futures from _waiters             -> C34.event_residue
@@ -60,8 +61,8 @@ RULE = (
     "calls without settling, bulk of 101/150 timed-out waits} and Event {wait (same deadline forms), set, clear, "
     "cancel, advance, jump, step, calls without settling}, with tie blocks that put a deadline and a notify/set at "
     "the same instant in both orders; plus exhaustive enumeration of all sequences of length <=L over 7 condition "
-    "ops {wait, wait_t1, notify(1), notify(2), notify_all, cancel_oldest, tick} and 6 event ops {wait, wait_t1, "
-    "set, set without settling, clear without settling, tick} (L=5 quick; thorough: 6 condition, 7 event) and a fixed family around "
+    "ops {wait, wait_t1, notify(1), notify(2), notify_all, cancel_oldest, tick} and 7 event ops {wait, wait_t1, "
+    "set, set without settling, clear without settling, tick, cancel of the oldest pending wait without settling} (L=5 quick; thorough: 6 condition, 7 event) and a fixed family around "
     "the clean-up threshold; non-trivial = a notify/set is issued while >=1 timed-out (or cancelled) and >=1 live "
     "waiter are queued; distinct = SHA-1 of the case"
 )
@@ -618,7 +619,10 @@ def _event_tie(form, d, variant):
         return [w, ("ns", ("set",)), ("jump", d), ("ns", ("clear",))]  # set before the deadline, loop runs after it
     if variant == 7:
         return [("set",), ("wait", (form, 0.0)), ("wait", ("zero",)), ("clear",)]
-    return [("wait", None), w, ("wait", None), ("cancel", 1), ("adv", d), ("set",), ("clear",), ("wait", None)]
+    if variant == 8:
+        return [("wait", None), w, ("wait", None), ("cancel", 1), ("adv", d), ("set",), ("clear",), ("wait", None)]
+    # a waiter is cancelled and set() follows before the loop runs again, other waiters pending
+    return [("wait", None), ("wait", None), w, ("ns", ("cancel", 0)), ("set",)]
 
 
 def _flatten(blocks):
@@ -634,7 +638,7 @@ def _ops(kinds, tie):
 
 
 cond_tie_s = st.builds(_cond_tie, st.sampled_from(["abs", "td"]), st.sampled_from(POS), st.integers(0, 8), st.integers(0, 4))
-event_tie_s = st.builds(_event_tie, st.sampled_from(["abs", "td"]), st.sampled_from(POS), st.integers(0, 8))
+event_tie_s = st.builds(_event_tie, st.sampled_from(["abs", "td"]), st.sampled_from(POS), st.integers(0, 9))
 case_s = st.one_of(
     st.fixed_dictionaries({"cls": st.just("condition"), "ops": _ops(COND_KINDS, cond_tie_s)}),
     st.fixed_dictionaries({"cls": st.just("event"), "ops": _ops(EVENT_KINDS, event_tie_s)}),
@@ -643,7 +647,8 @@ case_s = st.one_of(
 # ------------------------------------------------------------------------------------- exhaustive parts
 COND_ALPHABET = [("wait", None), ("wait", ("abs", 1.0)), ("notify", 1), ("notify", 2), ("notify_all",),
                  ("cancel_oldest",), ("adv", 1.0)]
-EVENT_ALPHABET = [("wait", None), ("wait", ("abs", 1.0)), ("set",), ("ns", ("set",)), ("ns", ("clear",)), ("adv", 1.0)]
+EVENT_ALPHABET = [("wait", None), ("wait", ("abs", 1.0)), ("set",), ("ns", ("set",)), ("ns", ("clear",)), ("adv", 1.0),
+                  ("ns", ("cancel_oldest",))]
 
 
 def grid_cases(cond_len, event_len):
